@@ -15,14 +15,10 @@ open AioMySensors AioMySensors.Stream
 theorem clause_connect : clause Gen.excStreamConnect 0 = [.OSError] := rfl
 theorem clause_disconnect : clause Gen.excStreamDisconnect 0 = [.OSError] := rfl
 theorem clause_write : clause Gen.excStreamWrite 0 = [.OSError] := rfl
-theorem clause_read0 : clause Gen.excStreamRead 0 = [.LimitOverrunError] := rfl
-theorem clause_read1 : clause Gen.excStreamRead 1 = [.IncompleteReadError] := rfl
-theorem clause_read2 : clause Gen.excStreamRead 2 = [.OSError] := rfl
-theorem clause_read3 : clause Gen.excStreamRead 3 = [.UnicodeDecodeError] := rfl
 
 attribute [local simp] TM.bind TM.seq TM.pure TM.raise TM.catchMap TM.suppress LS.readerIsNone LS.writerIsNone
   LS.openConnection LS.readuntil LS.decode LS.writerWrite LS.drain LS.close LS.waitClosed unitOutcome readOutcome mapBy absorb
-  clause_connect clause_disconnect clause_write clause_read0 clause_read1 clause_read2 clause_read3
+  clause_connect clause_disconnect clause_write
 
 theorem connect_eq (t : Transport) (limit : Nat) (fault : Option PyExn) :
     unitOutcome (GenStream.connect limit fault t) = Transport.connect t limit fault := by
@@ -50,8 +46,48 @@ theorem write_eq (t : Transport) (line : Str) (fault : WriteFault) :
     | atWrite c => cases h : pyCaught c [.OSError] <;> simp [GenStream.write, Transport.write, ht, h]
     | atDrain c => cases h : pyCaught c [.OSError] <;> simp [GenStream.write, Transport.write, ht, h]
 
+/-- A block of the generated table with its library errors resolved (`none`: some clause does something else than
+raising a transport error). -/
+def resolve (block : List (List PyExn × String)) : Option (List (List PyExn × TErr)) :=
+  block.mapM fun cl => (clauseErr cl.2).map fun e => (cl.1, e)
+
+/-- The clause lists the translator found in `read` are the blocks of the table the model reads, whatever their shape
+(both come from the same `try` statements). -/
+theorem readClauses0_table : resolve (Gen.excStreamReadBlocks.getD 0 []) = some GenStream.readClauses0 := by decide
+theorem readClauses1_table : resolve (Gen.excStreamReadBlocks.getD 1 []) = some GenStream.readClauses1 := by decide
+
+/-- First-match over a resolved block is `mapBlock` over the table's block. -/
+theorem mapBlock_resolved (c : PyExn) : ∀ (block : List (List PyExn × String)) (cls : List (List PyExn × TErr)),
+    resolve block = some cls →
+    mapBlock block c = (match cls.find? fun cl => pyCaught c cl.1 with | some cl => .lib cl.2 | none => .foreign c) := by
+  intro block
+  induction block with
+  | nil => intro cls h; simp [resolve] at h; subst h; simp [mapBlock]
+  | cons x xs ih =>
+    intro cls h
+    obtain ⟨cs, nm⟩ := x
+    simp only [resolve, List.mapM_cons, Option.bind_eq_bind] at h
+    cases he : clauseErr nm with
+    | none => simp [he] at h
+    | some e =>
+      simp only [he, Option.map_some, Option.bind_some] at h
+      cases hr : (xs.mapM fun cl => (clauseErr cl.2).map fun e => (cl.1, e)) with
+      | none => simp [hr] at h
+      | some rest =>
+        simp only [hr, Option.bind_some, Option.pure_def, Option.some.injEq] at h
+        subst h
+        have := ih rest hr
+        cases hc : pyCaught c cs with
+        | true => simp [mapBlock, List.find?, hc, he]
+        | false =>
+          simp only [mapBlock, List.find?, hc] at this ⊢
+          exact this
+
 theorem read_eq (d : Bytes → Option Str) (t : Transport) :
     readOutcome (GenStream.read d t) = Transport.read d t := by
+  have m0 := fun c => mapBlock_resolved c _ _ readClauses0_table
+  have m1 := mapBlock_resolved .UnicodeDecodeError _ _ readClauses1_table
+  simp only [List.getD_eq_getElem?_getD] at m0 m1
   cases ht : t.conn with
   | none => simp [GenStream.read, Transport.read, ht]
   | some cn =>
@@ -62,23 +98,17 @@ theorem read_eq (d : Bytes → Option Str) (t : Transport) :
         cases hd : d b with
         | some s => simp [GenStream.read, Transport.read, ht, hr, finish, hd]
         | none =>
-          cases hu : pyCaught .UnicodeDecodeError [.UnicodeDecodeError] <;>
-            simp [GenStream.read, Transport.read, ht, hr, finish, hd, decodeExn, hu]
+          cases hf : GenStream.readClauses1.find? (fun cl => pyCaught .UnicodeDecodeError cl.1) <;>
+            simp [GenStream.read, Transport.read, ht, hr, finish, hd, decodeExn, m1, hf]
       | wait => simp [GenStream.read, Transport.read, ht, hr, finish]
       | limitOverrun =>
-        cases h0 : pyCaught .LimitOverrunError [.LimitOverrunError] <;>
-        cases h1 : pyCaught .LimitOverrunError [.IncompleteReadError] <;>
-        cases h2 : pyCaught .LimitOverrunError [.OSError] <;>
-          simp [GenStream.read, Transport.read, ht, hr, finish, mapReadExn, List.find?, h0, h1, h2]
+        cases hf : GenStream.readClauses0.find? (fun cl => pyCaught .LimitOverrunError cl.1) <;>
+          simp [GenStream.read, Transport.read, ht, hr, finish, mapReadExn, m0, hf]
       | incomplete p =>
-        cases h0 : pyCaught .IncompleteReadError [.LimitOverrunError] <;>
-        cases h1 : pyCaught .IncompleteReadError [.IncompleteReadError] <;>
-        cases h2 : pyCaught .IncompleteReadError [.OSError] <;>
-          simp [GenStream.read, Transport.read, ht, hr, finish, mapReadExn, List.find?, h0, h1, h2]
+        cases hf : GenStream.readClauses0.find? (fun cl => pyCaught .IncompleteReadError cl.1) <;>
+          simp [GenStream.read, Transport.read, ht, hr, finish, mapReadExn, m0, hf]
       | raised c =>
-        cases h0 : pyCaught c [.LimitOverrunError] <;>
-        cases h1 : pyCaught c [.IncompleteReadError] <;>
-        cases h2 : pyCaught c [.OSError] <;>
-          simp [GenStream.read, Transport.read, ht, hr, finish, mapReadExn, List.find?, h0, h1, h2]
+        cases hf : GenStream.readClauses0.find? (fun cl => pyCaught c cl.1) <;>
+          simp [GenStream.read, Transport.read, ht, hr, finish, mapReadExn, m0, hf]
 
 end AioMySensors.StreamBodiesEq
